@@ -7,6 +7,7 @@ import MpsVerif.Drv.RemoteExc
 import MpsVerif.Drv.AFifo
 import MpsVerif.Drv.Eager
 import MpsVerif.Drv.Pipeline
+import MpsVerif.Drv.Tee
 
 def main (args : List String) : IO UInt32 := do
   match args with
@@ -20,4 +21,6 @@ def main (args : List String) : IO UInt32 := do
   | ["afifostale"] => AFifo.Drv.mainStale; return 0
   | ["eager"] => Eager.Drv.main; return 0
   | ["pipeline"] => Pipeline.Drv.main; return 0
+  | ["tee"] => Tee.Drv.main; return 0
+  | ["tee-legacy"] => Tee.Drv.mainLegacy; return 0
   | _ => IO.eprintln s!"usage: drv <model>   (models: fifo)"; return 2
